@@ -14,6 +14,9 @@ sample = base.dispatch_sample
 def make(family, rng, tier):
     if family == "ex":
         return exgen.gen(rng, PROP, tier)
+    if family == "solo":
+        from .. import exdrv
+        return exdrv.gen_solo_reuse(rng)
     scn = sysgen.gen_preempt(rng, tier) if rng.random() < (0.7 if PROP == "C10" else 0.3) else sysgen.gen(rng, None, PROP, tier, offgrid=True)
     scn["oracles"] = ["model"]
     return scn
@@ -21,4 +24,4 @@ def make(family, rng, tier):
 
 def plan(tier):
     q = tier == "quick"
-    return [("ex", 5000 if q else 80000), ("sysmodel", 1500 if q else 30000)]
+    return [("ex", 5000 if q else 80000), ("sysmodel", 1500 if q else 30000), ("solo", 1500 if q else 30000)]
